@@ -28,7 +28,10 @@ ASSUMPTIONS = [
     "a reader may raise (absent kind, comparison before any context): only bytes and descriptors are judged",
 ]
 MUTATORS = ("add_block", "remove_block", "replace_block", "set_data3D", "set_force_and_torque", "set_force_platforms_data",
-            "set_events", "set_emg")
+            "set_events", "set_emg", "replace_block_same", "set_same")
+# the last two ask for what is already there (same block, same comment): still a mutation request - outside a
+# write context it must be refused like any other; inside one it may leave the bytes as they are
+IDEMPOTENT = ("replace_block_same", "set_same")
 SETTER_TYPE = {"set_data3D": R.T_DATA3D, "set_force_and_torque": R.T_FORCE3D, "set_force_platforms_data": R.T_PLATDATA,
                "set_events": R.T_EVENTS, "set_emg": R.T_EMG}
 READERS = ("blocks", "get_block_0", "get_block_1", "get_block_type", "getitem_0", "getitem_type", "data3D", "force_and_torque",
@@ -128,6 +131,19 @@ class ModeMachine(ohist.Machine):
             e = next((e for e in R.parse_file(data)["entries"] if e["type"] == t), None)
             return 0 if e is not None and R.payload(data, e) == kdriver.variant(t, 1)[1] else 1
 
+        if op in IDEMPOTENT:
+            with open(impl.path, "rb") as f:
+                data = f.read()
+            for e in R.parse_file(data)["entries"]:
+                t = e["type"]
+                if t not in R.WRITABLE or (op == "set_same" and t not in kdriver.SETTERS):
+                    continue
+                for v in (0, 1):
+                    if R.payload(data, e) == kdriver.variant(t, v)[1]:
+                        if op == "set_same":
+                            return lambda: setattr(tdf, kdriver.SETTERS[t], kdriver.make_block(t, v))
+                        return lambda: tdf.replace_block(kdriver.make_block(t, v))
+            return None
         if op == "replace_block":
             t = next((t for t in live if t in R.WRITABLE), None)
             if t is None:
@@ -293,7 +309,7 @@ class ModeMachine(ohist.Machine):
                 if err is not None:
                     raise self.V("valid-mutation-refused", f"mutator {op} in a freshly write-enabled context ({where}): "
                                  f"{type(err).__name__}: {err}", op)
-                if not changed:
+                if not changed and op not in IDEMPOTENT:
                     raise self.V("valid-mutation-no-effect", f"mutator {op} in {where} returned but the file is unchanged", op)
             if err is not None and changed:
                 raise self.V("refused-mutation-changed-file", f"mutator {op} in {where} raised {type(err).__name__} and changed the file", op)
